@@ -11,6 +11,7 @@ import CaddyModel.C09.PoolLemmas
 import CaddyModel.C09.SchedLemmas
 import CaddyModel.C09.FuelLemmas
 import CaddyModel.C09.IterLemmas
+import CaddyModel.C09.FuelDynLemmas
 import CaddyModel.C09.Concrete
 import CaddyModel.C09.Witness
 import CaddyModel.Gen.ProxyCount
@@ -441,8 +442,14 @@ example : ((runSteps dinit [.load [0, 1] pDyn, .newReq true, .newReq true]).map 
 example : ((runSteps dinit [.load [0, 1] pDyn, .newReq true, .newReq true]).map fun d =>
     (d.s.cfgs.map (·.ups), d.s.nextHost)) = some ([[], [(0, 0), (1, 1)], [(0, 0), (1, 1)]], 2) := by decide
 
-/-- …and when the last iteration referring to an address returns, the pool lets the Host go (the
-    documented reset of passive state for dynamic upstreams): the failure counted on object 0 stays
+/-- …and when the last iteration referring to an address returns, the pool lets the Host go. This is
+    the DOCUMENTED reset of passive state for dynamic upstreams, not a violation: healthchecks.go:52-67
+    (doc of `HealthChecks.Passive`: "if there is a moment when no requests are actively referring to a
+    particular upstream host, the passive health check state will be reset because it will be
+    garbage-collected") and reverseproxy.go:95-103. The accounting itself stays exact on the orphaned
+    Host (`fails_eq_pending_forgetters` holds for every Host object, pooled or not); what the property
+    calls "an upstream within one configuration" lives for one loop iteration here.
+    (the documented reset of passive state for dynamic upstreams): the failure counted on object 0 stays
     with that orphan, the retry is provisioned fresh objects 2 and 3 -/
 example : ((runSteps dinit [.load [0, 1] pDyn, .newReq true, .answer 0 "rst"]).map fun d =>
     (poolObj d.s 0, d.s.fails 0, d.s.inflight 2, d.s.nextHost)) = some (some 2, 1, 1, 4) := by decide
@@ -507,6 +514,18 @@ theorem sched_never_runs_out_of_fuel (d : DState) (r : Nat) (q : Req) (hq : d.s.
 example : ((sstep dinit (.load [0, 1] { pA with retries := 8 })).bind fun x =>
     (sstep { x.1 with down := [0, 1] } (.newReq true)).map fun y => (y.2, (y.1.s.reqs.map (·.retries)))) = some ("err", [8]) := by
   decide
+
+/-- …and neither does the proxy loop of a handler with dynamic upstreams (new holder,
+    provisioning, selection, dispatch, refused dial, release — all enabled; see
+    `FuelDynLemmas.advanceDyn_never_runs_out_of_fuel`) -/
+theorem sched_dyn_never_runs_out_of_fuel (d : DState) (r : Nat) (q : Req) (hq : d.s.reqs[r]? = some q)
+    (hpc : q.pc = .start) (hdyn : q.par.dynamic = true) (hr : q.par.retries ≤ 8) :
+    (advanceDyn fuel0 d r).isSome = true :=
+  advanceDyn_never_runs_out_of_fuel fuel0 d r q hq hpc hdyn (by simp only [fuel0]; omega)
+
+example : ((sstep dinit (.load [0, 1] { pA with retries := 8, dynamic := true })).bind fun x =>
+    (sstep { x.1 with down := [0, 1] } (.newReq true)).map fun y => (y.2, (y.1.s.reqs.map (·.retries)), y.1.s.cfgs.length)) =
+    some ("err", [8], 10) := by decide
 
 /-- …including the final quiescent state -/
 theorem quiesce_state_reachable {d : DState} (h : Reachable d.s) : Reachable (quiesce d) := quiesce_reachable h
